@@ -73,6 +73,10 @@ Python objects
          style 3 as style 0, but timestamps are timezone-AWARE datetimes with a fixed non-trivial UTC offset
                  (aware_datetime(ms); offsets TZ_OFFSETS_MIN) -- the documented normalisation is aware -> naive UTC,
                  so the tagged millisecond instant must survive
+         style 4 as style 0, but alternate accepted spellings: date as 'yyyy-mm-dd' string or as datetime.datetime
+                 with a non-midnight time of day (date_as_datetime / derived_time_of_day_us), time as
+                 'HH:MM:SS.nnnnnnnnn', timestamp as datetime.date (midnights) or float ms, decimal as int / numeric str;
+                 spelling_features(tree, value, style) names the spellings a value actually gets
          factory supplies date(days) time(nanos) duration(m,d,n) ordered_map(pairs) sorted_set(items)
                  udt_tuple(tree, values) udt_object(tree, values)   (see checks/_drv.py for the cassandra one)
     normalise(tree, obj) -> tagged value  (NormaliseError when obj has the wrong Python type for the tree)
@@ -922,6 +926,61 @@ def aware_datetime(ms):
         return pydatetime(ms)
 
 
+def derived_time_of_day_us(days):
+    """a non-midnight time of day (microseconds) that is a pure function of the day number"""
+    return (abs(days) * 2654435761 + 12345) % 86399999999 + 1
+
+
+def date_as_datetime(days, tod_us):
+    """datetime.datetime on day `days` (since epoch) at tod_us microseconds after midnight"""
+    d = _EPOCH_DATE + datetime.timedelta(days=days)
+    return datetime.datetime(d.year, d.month, d.day) + datetime.timedelta(microseconds=tod_us)
+
+
+def date_as_string(days):
+    d = _EPOCH_DATE + datetime.timedelta(days=days)
+    return "%04d-%02d-%02d" % (d.year, d.month, d.day)
+
+
+def time_as_string(nanos):
+    s = nanos // 10 ** 9
+    return "%02d:%02d:%02d.%09d" % (s // 3600, s // 60 % 60, s % 60, nanos % 10 ** 9)
+
+
+def spelling_features(tree, v, style):
+    """labels of the alternate input spellings style 4 actually produces for this value"""
+    out = set()
+    if style != 4 or v is None or _is_empty(v):
+        return out
+    t = tree["t"]
+    if t in ("frozen", "reversed"):
+        return spelling_features(tree["of"], v, style)
+    if t == "date" and MIN_PYDATE_DAYS <= v <= MAX_PYDATE_DAYS:
+        if v % 3 == 0:
+            out.add("date-from-string")
+        else:
+            out.add("date-from-datetime")
+            if v < 0:
+                out.add("date-from-datetime-pre-epoch")
+    elif t == "time" and 0 <= v < _DAY_NANOS:
+        out.add("time-from-string")
+    elif t == "timestamp" and MIN_TIMESTAMP_MS <= v <= MAX_TIMESTAMP_MS:
+        out.add("timestamp-from-date" if v % 86400000 == 0 else "timestamp-from-float")
+    elif t == "decimal":
+        out.add("decimal-from-int" if v[2] == 0 else "decimal-from-str")
+    elif t in ("list", "set", "vector"):
+        for x in v:
+            out |= spelling_features(tree["of"], x, style)
+    elif t == "map":
+        for k, x in v:
+            out |= spelling_features(tree["k"], k, style) | spelling_features(tree["v"], x, style)
+    elif t in ("tuple", "udt"):
+        subs = tree["of"] if t == "tuple" else [f[1] for f in tree["fields"]]
+        for sub, x in zip(subs, v):
+            out |= spelling_features(sub, x, style)
+    return out
+
+
 def _has_map(tree):
     return contains(tree, "map")
 
@@ -947,20 +1006,34 @@ def to_python(tree, v, style=0, factory=None, hashable=False):
         return _float_from_tag(v)
     if t == "decimal":
         sign, digits, exp = v
-        return decimal.Decimal((int(sign), tuple(int(c) for c in str(digits)), int(exp)))
+        d = decimal.Decimal((int(sign), tuple(int(c) for c in str(digits)), int(exp)))
+        if style == 4:
+            # "implicit numeric conversion": ints and numeric strings are accepted for decimal columns
+            return (-int(digits) if sign else int(digits)) if exp == 0 else str(d)
+        return d
     if t == "timestamp":
+        if style == 4 and MIN_TIMESTAMP_MS <= v <= MAX_TIMESTAMP_MS:
+            # a datetime.date means its midnight; floats are "valid timestamps too"
+            return (_EPOCH_DATE + datetime.timedelta(days=v // 86400000)) if v % 86400000 == 0 else float(v)
         if style == 2 or not MIN_TIMESTAMP_MS <= v <= MAX_TIMESTAMP_MS:
             return int(v)
         if style == 3:
             return aware_datetime(v)
         return pydatetime(v)
     if t == "date":
+        if style == 4 and MIN_PYDATE_DAYS <= v <= MAX_PYDATE_DAYS:
+            # a date column also takes 'yyyy-mm-dd' strings and datetime.datetime objects (any time of day)
+            if v % 3 == 0:
+                return date_as_string(v)
+            return date_as_datetime(v, derived_time_of_day_us(v))
         if style == 1 and MIN_PYDATE_DAYS <= v <= MAX_PYDATE_DAYS:
             return _EPOCH_DATE + datetime.timedelta(days=v)
         if style == 2:
             return v + (1 << 31)
         return f.date(v)
     if t == "time":
+        if style == 4 and 0 <= v < _DAY_NANOS:
+            return time_as_string(v)
         if style == 1 and v % 1000 == 0 and 0 <= v < _DAY_NANOS:
             return _pytime(v)
         if style == 2:
